@@ -43,7 +43,7 @@ def gen(r, tier, i):
                   'shared_acc': True, 'amount': pid + 1} for pid in range(n)]
         calls = sched.cap_events(r, procs, sched.gen_calls(r, 'dyadic', None, maxcalls=4), 'dyadic', None, cap=160)
         return {'class': 'grammar', 'procs': procs, 'calls': calls, 'nsteps': r.randint(0, 4), 't0': 0,
-                'step_flow': r.choice(['layer', 'layer', 'none'])}
+                'step_flow': r.choice(['layer', 'layer', 'none']), 'duck_step': r.random() < 0.25}
     n = r.randint(2, 5)
     ns = r.randint(0, 4)
     return {'class': 'perm',
@@ -79,7 +79,8 @@ def run_grammar(spec, V):
 
     def close(group):
         nonlocal together, layers_seen
-        steps = [g for g in group if g[0] == 'step']
+        # (zduck has no flow entry: it runs before the layer, alone, and its update is applied before the layer starts)
+        steps = [g for g in group if g[0] == 'step' and g[3] != 'zduck']
         if spec.get('step_flow') == 'layer' and len(steps) >= 2:
             layers_seen += 1
             V.check('same_snapshot_per_layer', len({g[2] for g in steps}) == 1,
